@@ -20,7 +20,8 @@
 EXTENDS Def, Json
 
 CONSTANTS MaxLen,      \* history length (number of operations after the seed)
-          Family       \* "seq" | "map"
+          Family,      \* "seq" | "map"
+          CoreOnly     \* TRUE: only the operations that share or append to their operand's array (long histories)
 
 \* ------------------------------------------------------------------ seq family
 \* op table: name, operand count (1 or 2 earlier names), template text with _1 _2
@@ -187,8 +188,11 @@ Do(k, a, b) ==
        /\ snap' = Append(snap, <<>>)
        /\ UNCHANGED <<seed, heap, danger>>
 
+\* the operations that return a window onto their operand's array or append to it (and the rest-parameter ones)
+CoreNames == {"conj", "conj2", "concat", "concat-lit", "subvec", "subvec-tail", "rest", "vec", "seq", "with-meta",
+              "qq-front", "concat3-empty", "concat-empty2", "apply-concat", "map-restfn", "apply-restfn", "apply-restfn1"}
 Step == /\ Len(hist) < MaxLen
-        /\ \E k \in 1..Len(Ops), a \in 1..Len(hdr) :
+        /\ \E k \in {x \in 1..Len(Ops) : ~CoreOnly \/ Family = "map" \/ Ops[x].n \in CoreNames}, a \in 1..Len(hdr) :
              IF Ops[k].ar = 2 THEN \E b \in 1..Len(hdr) : Do(k, a, b) ELSE Do(k, a, a)
 
 \* the design-level statement; expected to be violated by the code as designed
